@@ -26,7 +26,7 @@ ASSUMPTIONS = [
 ]
 REQUIRED_CLASSES = ["nontrivial", "accept", "reject", "zero_area_rect", "zero_length", "vertical", "horizontal",
                     "near_edge_ulp", "both_outside_accept", "one_inside", "both_inside", "large_offset",
-                    "corner_region", "through_corner"]
+                    "corner_region", "through_corner", "second_call_same_arguments"]
 QUICK_SHARDS = 4
 
 plot_utils = sut.load("plot_utils")
@@ -40,6 +40,21 @@ def region(x, y, xmin, ymin, xmax, ymax):
 
 
 def body(ctx, case):
+    """One call - or, when case["again"] is set, the same call twice with the returned segment edited in place in
+    between (a caller applying an offset to what it got back): the second answer must be judged like the first."""
+    seg = once(ctx, case)
+    if case.get("again"):
+        try:
+            for point in seg:
+                point[0] += case["again"]
+                point[1] -= case["again"]
+        except Exception:  # pylint: disable=broad-except
+            pass                                   # result not a mutable list of points: nothing to edit
+        ctx.count("second_call_after_editing_the_result")
+        once(ctx, case, second=True)
+
+
+def once(ctx, case, second=False):
     (x1, y1), (x2, y2) = case["seg"]
     (xmin, ymin), (xmax, ymax) = case["rect"]
     coords = [x1, y1, x2, y2, xmin, ymin, xmax, ymax]
@@ -84,11 +99,15 @@ def body(ctx, case):
         ctx.record(case, classes, True)
         ctx.fail("clip_segment raised %s: %s" % (type(exc).__name__, exc), case)
     classes.add("accept" if accept else "reject")
+    if second:
+        classes.add("second_call_same_arguments")
     if accept and not inside1 and not inside2:
         classes.add("both_outside_accept")
     ctx.record(case, classes, nontrivial=not (inside1 and inside2))
 
     what = "clip_segment(%r, %r)" % (case["seg"], case["rect"])
+    if second:
+        what = "second call of " + what + " (after the first result was edited in place)"
     # The part of the segment that is inside by more than tol: clip against the rectangle shrunk by tol
     # (a rectangle thinner than 2 tol keeps its centre line).  `outer` is the part inside the rectangle
     # grown by tol.  An end of `inner` is *stable* when the corresponding end of `outer` is within
@@ -115,7 +134,7 @@ def body(ctx, case):
             a = geom.lerp(p, q, (inner[0] + inner[1]) / 2)
             ctx.fail("%s rejected, but the point (%s, %s) of the segment is inside the rectangle by more than "
                      "the tolerance" % (what, float(a[0]), float(a[1])), case)
-        return
+        return seg
     try:
         (ox1, oy1), (ox2, oy2) = seg
         outs = [float(ox1), float(oy1), float(ox2), float(oy2)]
@@ -147,6 +166,7 @@ def body(ctx, case):
                 ctx.fail("%s = %r does not cover the inside point (%r, %r) of the input segment"
                          % (what, seg, float(a[0]), float(a[1])), case)
             ctx.count("covered_ends_checked")
+    return seg
 
 
 STABLE = 1000
@@ -241,7 +261,10 @@ def cases(draw):
         q[0] = p[0]
     elif shape == 2:
         q[1] = p[1]
-    return {"seg": [p, q], "rect": [[xmin, ymin], [xmax, ymax]], "ulp": used_ulp[0], "offset": offset}
+    case = {"seg": [p, q], "rect": [[xmin, ymin], [xmax, ymax]], "ulp": used_ulp[0], "offset": offset}
+    if draw(st.integers(0, 5)) == 0:
+        case["again"] = scale * draw(st.sampled_from([17.0, 0.5, 1000.0]))
+    return case
 
 
 def lattice_grid():
@@ -253,7 +276,10 @@ def lattice_grid():
     for rect in rects:
         for p in pts:
             for q in pts:
-                yield {"seg": [list(p), list(q)], "rect": rect, "ulp": False, "offset": False}
+                case = {"seg": [list(p), list(q)], "rect": rect, "ulp": False, "offset": False}
+                if (int(p[0]) + 2 * int(q[1])) % 5 == 0:
+                    case["again"] = 10.0
+                yield case
 
 
 def run(ctx):
